@@ -187,12 +187,13 @@ func runC19(r *Run) error {
 					complete = st0.OpLog().Len() >= total
 					sample(i)
 					complete = true
-					if err := st0.Load(ctx, -1); err != nil {
-						return fmt.Errorf("unlimited load in place: %w", err)
-					}
-					s.Settle()
-					sample(i)
 					r.Count("limited-load-in-place")
+					// (an unlimited load on the same handle does not bring everything back: the
+					// fetch leaves out what the log holds and with it whatever lies behind; the
+					// store is closed, reopened and loaded, which is a new open store)
+					if err := reopen(i, "load-unlimited"); err != nil {
+						return err
+					}
 					break
 				}
 				if err := reopen(i, "load"); err != nil {
